@@ -214,10 +214,10 @@ impl UnrepairedDatabaseHeader {
     }
 
     // Consume self, reconcile the layout against the actual file length, and select a primary slot
-    // (repairing if necessary). Returns the usable DatabaseHeader along with a `clean` flag that is
-    // true only when nothing had to be reconciled: the primary was kept and the stored layout
-    // already matched `file_len`.
-    pub(super) fn finalize(mut self, file_len: u64) -> Result<(DatabaseHeader, bool)> {
+    // (repairing if necessary). Returns the usable DatabaseHeader along with two flags saying what
+    // had to be reconciled: whether the primary was kept, and whether the stored layout already
+    // matched `file_len`.
+    pub(super) fn finalize(mut self, file_len: u64) -> Result<(DatabaseHeader, bool, bool)> {
         if self.inner.recovery_required {
             // The region counts are unchecksummed and rewritten on every resize, so a crash
             // mid-resize can tear them. Recovery is required, so rebuild the layout from the file
@@ -235,7 +235,7 @@ impl UnrepairedDatabaseHeader {
                 && trailing_pages == self.inner.trailing_partial_region_pages;
             self.inner.set_layout(recalculated);
             let kept_primary = self.select_primary_slot()?;
-            return Ok((self.inner, kept_primary && layout_matched));
+            return Ok((self.inner, kept_primary, layout_matched));
         }
 
         // Recovery isn't required, so the stored layout was written by a clean shutdown and is
@@ -254,7 +254,7 @@ impl UnrepairedDatabaseHeader {
             self.inner.set_layout(recalculated);
         }
         let kept_primary = self.select_primary_slot()?;
-        Ok((self.inner, kept_primary && !layout_stale))
+        Ok((self.inner, kept_primary, !layout_stale))
     }
 
     // Rebuild the database layout from the actual file length, trusting only the immutable region
